@@ -396,8 +396,38 @@ func ruleReadLimitsConstant(w *World, r *Run, rule string) {
 					continue
 				}
 				n++
-				k, isConst := c.Common().Args[idx].(*ssa.Const)
-				good := isConst && k.Value != nil && k.Int64() > 0
+				posConst := func(v ssa.Value) bool {
+					k, isConst := v.(*ssa.Const)
+					return isConst && k.Value != nil && k.Int64() > 0
+				}
+				arg := c.Common().Args[idx]
+				good := posConst(arg)
+				// a helper that takes the limit as a parameter: every caller in the module passes a positive constant
+				if p, isParam := arg.(*ssa.Parameter); isParam && !good {
+					pi := -1
+					for i, fp := range fn.Params {
+						if fp == p {
+							pi = i
+						}
+					}
+					callers := 0
+					good = pi >= 0
+					for _, cf := range w.prodFns() {
+						for _, cb := range cf.Blocks {
+							for _, cin := range cb.Instrs {
+								if cc, ok := cin.(ssa.CallInstruction); ok && cc.Common().StaticCallee() == fn && pi < len(cc.Common().Args) {
+									callers++
+									if !posConst(cc.Common().Args[pi]) {
+										good = false
+									}
+								}
+							}
+						}
+					}
+					if callers == 0 {
+						good = false
+					}
+				}
 				r.Check(good, rule, funcNameOrSSA(outermost(fn))+" | read limit is a positive constant", w.pos(in.Pos()), name+" is given a limit that is not a positive constant: a value such as Content-Length is -1 for chunked responses and silently turns every body into an empty one")
 			}
 		}
